@@ -110,6 +110,8 @@ def classes_of(form, sh, text=""):
         out.append("C06-paren-declarator-class-base")
     if form in ("us", "ta") and "(" in text:
         out.append("C06-typeid-paren-abstract-declarator")
+    if sh[-1] in ("int long", "char unsigned"):
+        out.append("C06-simple-specifier-order")
     return out
 
 
